@@ -437,7 +437,7 @@ theorem expr_top {L : Leaves} {e : Env} {r : RTy} {j out : Json} {x : Val} (h : 
     rw [h.norm]
   · intro hno
     unfold Serde.de deTy deFuel
-    exact h.de hno false _ (Nat.le_mul_of_pos_right _ (by omega))
+    exact h.de hno false _ (Nat.le_trans (Nat.le_mul_of_pos_right _ (by omega)) (Nat.le_mul_of_pos_left _ (by omega)))
 
 /-- a whole variables assignment (GraphQL spec §6.1.2 CoerceVariableValues, defaults ignored): an object without
     repeated keys, whose keys are declared variables, carrying every variable of non-null type, each value valid
